@@ -31,3 +31,12 @@ var ScopeUnmarshal = Scope{Name: "unmarshal.go", Pkgs: []string{"ion"}, Files: [
 var SwapSuppReader = []suppression{
 	{fn: "(*tokenizer).readRadix", callee: "peek", reason: "the peek after the radix marker is served from the push-back buffer (scanForNumericType already pulled the next bytes), so its error branch, which returns the wrong variable, is unreachable; confirmed with an I/O-fault run (the fault is reported as IOError)"},
 }
+
+// ScopeWriter is the output path of package ion.
+var ScopeWriter = Scope{Name: "writer files of package ion", Pkgs: []string{"ion"}, Files: WriterFiles}
+
+// ScopeDecimal is decimal.go.
+var ScopeDecimal = Scope{Name: "decimal.go", Pkgs: []string{"ion"}, Files: []string{"decimal.go"}}
+
+// ScopeText is the text tokenizer.
+var ScopeText = Scope{Name: "text tokenizer files of package ion", Pkgs: []string{"ion"}, Files: []string{"tokenizer.go", "skipper.go", "textutils.go", "textreader.go"}}
